@@ -137,6 +137,14 @@ type wordPtrV struct {
 	n   int // number of bytes
 }
 
+// slice of machine words overlaid on bytes arr[idx:idx+n*count] (unsafe.Slice of a word pointer)
+type wordSliceV struct {
+	arr   []value
+	idx   int
+	n     int // bytes per word
+	count int
+}
+
 // pointer to arr[idx] with symbolic idx (scalar element types only)
 type symElemPtr struct {
 	arr []value
